@@ -97,6 +97,13 @@ def cases() -> List[Dict[str, Any]]:
         "zk/mapi.py": "from zk.ibase import IBase, MyIC, MyField\n__all__ = ['IBase', 'MyIC', 'MyField']\n",
         "zk/asub.py": "from zk.ibase import IBase, MyIC, MyField\nclass ISub(IBase):\n    title = MyField(description='d')\nIMade = MyIC('IMade')\n",
         "zk/zsub.py": "from zk.ibase import IBase, MyIC, MyField\nclass ISub2(IBase):\n    title = MyField(description='d')\nIMade2 = MyIC('IMade2')\n"}, ["zk"]))
+    # a stand-alone module and a package of the same name on one command line (the package wins in either order), the package
+    # re-exporting a class that a third root names through its defining module
+    out.append(hw("module-and-package-of-one-name", {
+        "legacy/shapes.py": "class Old:\n    pass\n",
+        "src/shapes/__init__.py": "from ._impl import Shape\n__all__ = ['Shape']\n",
+        "src/shapes/_impl.py": "class Shape:\n    def area(self):\n        'doc'\n",
+        "drawing.py": "from shapes._impl import Shape\nclass Circle(Shape):\n    pass\n"}, ["legacy/shapes.py", "src/shapes", "drawing.py"]))
     # a file that does not parse, reached first through an import or first by the main loop
     out.append(hw("unparsable-module-imported", {
         "pk/__init__.py": "", "pk/atool.py": "from pk import legacy\nclass A:\n    pass\n", "pk/ztool.py": "from pk import legacy\nclass Z:\n    pass\n",
